@@ -148,3 +148,11 @@ package format
 //@ func IsBigList
 //@   safety[C02]
 //@   ensures[C01,C08] result <==> (len(elements) > 255 || (len(elements) > 0 && elements[len(elements)-1].Offset > 65535))
+
+// ---- strings (C04: status codes and messages are cloned out of the receive buffer)
+//@ func (String).Clone
+//@   safety[C04]
+//@   ensures[C04] result == s
+//@ func (String).Unwrap
+//@   safety[C04]
+//@   ensures[C04] result == s
